@@ -10,6 +10,7 @@ import Mkdb.Driver.Sess
 import Mkdb.Driver.Lock
 import Mkdb.Driver.Wal
 import Mkdb.Driver.BSearch
+import Mkdb.Driver.ScanBuf
 open Mkdb.Driver
 
 def main (args : List String) : IO UInt32 := do
@@ -40,4 +41,6 @@ def main (args : List String) : IO UInt32 := do
   | ["judge", "wal"] => judgeLoop stdin stdout ({} : Wal.J) Wal.judgeLine; return 0
   | ["model", "bsearch"] => modelLoop stdin stdout () BSearch.stepLine; return 0
   | ["judge", "bsearch"] => judgeLoop stdin stdout ({} : BSearch.J) BSearch.judgeLine; return 0
+  | ["model", "scanbuf"] => modelLoop stdin stdout () ScanBuf.stepLine; return 0
+  | ["judge", "scanbuf"] => judgeLoop stdin stdout ({} : ScanBuf.J) ScanBuf.judgeLine; return 0
   | _ => IO.eprintln "usage: mkdbdrv model|judge <proto>"; return 2
